@@ -51,6 +51,9 @@ func (u *Unit) call(st *State, fr *Frame, in *ssa.Call) ([]Outcome, bool) {
 		return u.invoke(st, fr, in, recv, c.Method, args)
 	}
 	if fn := c.StaticCallee(); fn != nil {
+		if u.initMode && fn.Name() == "init" && fn.Pkg != u.eng.ssaPkg {
+			return []Outcome{{st, nil}}, true // initialisers of imported packages: not our globals
+		}
 		var binds []Value
 		if mc, ok := c.Value.(*ssa.MakeClosure); ok {
 			for _, b := range mc.Bindings {
